@@ -123,7 +123,9 @@ CrashStep(ev) ==
 
 OpStep(ev) ==
     /\ \/ ModelAct(ev)
-       \/ (~ENABLED ModelAct(ev)) /\ UNCHANGED vars
+       \* the model cannot take the step (e.g. it has closed the connection, or has nothing pending):
+       \* it stays where it is and expects no output
+       \/ (~ENABLED ModelAct(ev)) /\ UNCHANGED <<mvars, hist>> /\ out' = <<>> /\ dlv' = <<>> /\ sig' = <<>>
     /\ mon' = MonNext(mon, ev)
     \* failed predicates are written out at once (IOEnv.QXV_VIOL, one JSON line per failing step):
     \* accumulating them in the state would make every later state carry them
